@@ -83,6 +83,13 @@ def _client_hello(pattern):
             suites = [(0x5600, ordinary[i % 5], 0x00ff, ordinary[(i + 1) % 5])[i % 4] for i in range(count)]
         elif pattern == 'grease-suites':
             suites = [(0x0a0a + 0x1010 * (i % 16)) for i in range(count)]
+        elif pattern == 'groups-and-shares':
+            # two lists that refer to each other and grow together: every key share names a group of the supported_groups
+            # extension, the shares in the opposite order
+            suites = ordinary
+            groups = [0x4000 + i for i in range(max(1, min(9000, size // 7)))]
+            extensions = [ref.extension(10, ref.ext_supported_groups(groups)),
+                          ref.extension(51, ref.ext_key_share_client([(group, b'\x01') for group in reversed(groups)]))]
         else:
             suites = ordinary
             extensions = [ref.extension(0x4000 + i, b'') for i in range(max(1, min(16000, size // 4)))]     # pairwise different, unassigned
@@ -133,6 +140,7 @@ EXPLICIT_SHAPES = [(SPF, 'spf-' + term.decode('ascii').split(':')[0].split('=')[
     ('cryptoparser.tls.subprotocol:TlsHandshakeClientHello', 'hello-scsv-alternating', _client_hello('scsv-alternating')),
     ('cryptoparser.tls.subprotocol:TlsHandshakeClientHello', 'hello-grease-suites', _client_hello('grease-suites')),
     ('cryptoparser.tls.subprotocol:TlsHandshakeClientHello', 'hello-unknown-extensions', _client_hello('extensions')),
+    ('cryptoparser.tls.subprotocol:TlsHandshakeClientHello', 'hello-groups-and-key-shares', _client_hello('groups-and-shares')),
     ('cryptoparser.dnsrec.record:DnsRecordTxt', 'txt-strings', _txt_strings),
     ('cryptoparser.dnsrec.record:DnsRecordMx', 'mx-many-labels', _mx_labels),
     ('cryptoparser.ssh.subprotocol:SshKeyExchangeInit', 'kexinit-language-subtags', _kexinit_languages),
